@@ -172,7 +172,9 @@ def c06(tier, seed, case=None):
             'files per T (writer output; hand-laid NullShape records; homogeneous foreign-layout files from the reference encoder: unclosed '
             'rings, absent M blocks, empty parts, trailing bytes; .shp/.shx pairs on disk with permuted and padded indexes, typed against '
             'generic through every path route); identity/shapetype of every variant; bulk conversion with '
-            'the odd shape at every position. distinct = (S, T, api) cells + (S, T, len, pos) bulk cases; all non-trivial',
+            'the odd shape at every position; mixed sequences (several foreign types, NullShape included) as vectors and as '
+            'hand-concatenated files through convert_shapes_to_vec_of / read_as / iter_shapes_as, decided by the first element that '
+            'is not an S. distinct = (S, T, api) cells + (S, T, len, pos) bulk cases; all non-trivial',
             exhaustive=True)
     import os
     import gen_c03
@@ -302,7 +304,10 @@ def c11(tier, seed, case=None):
             'twice at the end}) run once on instrumented destinations; crash points = EVERY prefix of the .shp op log x EVERY prefix of '
             'the .shx op log (quick: op granularity for all 13 types, plus byte-level cuts inside every write for 3 types with every 5th '
             'pair; thorough: byte level for all types with every 2nd pair, 6 extra random workloads per type and placement); readers: '
-            'ShapeReader::new(shp image) and with_shx(shp image, shx image) incl. read_nth_shape for every index. distinct = shp crash '
+            'ShapeReader::new(shp image) and with_shx(shp image, shx image) incl. read_nth_shape for every index. Second class (live): '
+            'one destination dies for good at each of its operations while the other keeps working, the caller stops at the first '
+            'error (optionally finalizes once more) and drops the writer; what both hold is read the same way, and nothing may be '
+            'lost that a finalize which ran to its flush on the .shp had committed. distinct = shp crash '
             'points (type, placement, variant, ops applied, bytes of the next write applied); all non-trivial',
             ['only prefixes of the operation sequence are modelled (no reordering of writes by a file system, no torn sectors)'])
     for prof in _profiles(tier, quick=('checked',), thorough=('checked',)):
